@@ -23,7 +23,7 @@ from ..lib.evidence import Report, machinery_failure
 
 PID = "C05"
 MODES = ["yaml", "json", "jsonnet", "omegaconf"]
-CHANNELS = ["argv_eq", "argv_sp", "cfg_file", "cfg_str", "parse_string", "parse_path", "object_nested", "object_dotted", "env"]
+CHANNELS = ["argv_eq", "argv_sp", "argv_items", "cfg_file", "cfg_str", "parse_string", "parse_path", "object_nested", "object_dotted", "env"]
 # JSON-legal spellings of the floats of the vocabulary (canonical id -> spellings); the id is repr(float)
 SPELL = {
     "2.5": ["2.5", "25e-1", "0.25E1", "2.50"],
@@ -61,11 +61,21 @@ def txt_el(el, variant):
     return ident
 
 
+def _grouped(v):
+    keys = []
+    for e in v["e"]:
+        if e["key"] not in keys:
+            keys.append(e["key"])
+    return [(k, [e for e in v["e"] if e["key"] == k]) for k in keys]
+
+
 def py_val(v, variant):
     if v["c"] == "scalar":
         return py_el(v["e"][0], variant)
     if v["c"] == "list":
         return [py_el(e, variant) for e in v["e"]]
+    if v["c"] == "dictlist":
+        return {k: [py_el(e, variant) for e in es] for k, es in _grouped(v)}
     return {e["key"]: py_el(e, variant) for e in v["e"]}
 
 
@@ -75,6 +85,8 @@ def txt_val(v, variant):
         return txt_el(v["e"][0], variant)
     if v["c"] == "list":
         return "[" + ", ".join(txt_el(e, variant) for e in v["e"]) + "]"
+    if v["c"] == "dictlist":
+        return "{" + ", ".join(json.dumps(k) + ": [" + ", ".join(txt_el(e, variant) for e in es) + "]" for k, es in _grouped(v)) + "}"
     return "{" + ", ".join(json.dumps(e["key"]) + ": " + txt_el(e, variant) for e in v["e"]) + "}"
 
 
@@ -130,7 +142,7 @@ def hint_of(t):
     from typing import Dict, List, Optional
 
     st = {"int": int, "float": float, "bool": bool, "str": str}[t["st"]]
-    h = st if t["c"] == "scalar" else List[st] if t["c"] == "list" else Dict[str, st]
+    h = st if t["c"] == "scalar" else List[st] if t["c"] == "list" else Dict[str, List[st]] if t["c"] == "dictlist" else Dict[str, st]
     return Optional[h] if t["opt"] else h
 
 
@@ -150,6 +162,8 @@ def abs_val(x):
 
     if type(x) is list:
         return {"c": "list", "e": [el(y) for y in x]}
+    if type(x) is dict and x and all(type(y) is list and y for y in x.values()):
+        return {"c": "dictlist", "e": [el(z, str(k)) for k, y in x.items() for z in y]}
     if type(x) is dict:
         return {"c": "dict", "e": [el(y, str(k)) for k, y in x.items()]}
     return {"c": "scalar", "e": [el(x)]}
@@ -179,6 +193,19 @@ def run_case(case):
                 try:
                     if ch == "argv_eq":
                         call = [f"--{st['key']}={raw_text(st['v'], variant, mode)}" for st in ss]
+                        cfg = p.parse_args(call)
+                    elif ch == "argv_items":
+                        call = []
+                        for st in ss:
+                            v = st["v"]
+                            if shape[st["key"]]["st"] == "str" and v["c"] == "dict" and any(e["k"] != "str" for e in v["e"]):
+                                call.append(f"--{st['key']}={raw_text(v, variant, mode)}")  # item-wise, a non-string would be the text of a string item (ambiguous)
+                            elif v["c"] == "dict" and v["e"] and shape[st["key"]]["c"] in ("dict", "dictlist"):
+                                call += [f"--{st['key']}.{e['key']}={raw_text({'c': 'scalar', 'e': [e]}, variant, mode)}" for e in v["e"]]
+                            elif v["c"] == "dictlist" and shape[st["key"]]["c"] in ("dict", "dictlist"):
+                                call += [f"--{st['key']}.{k}=[" + ", ".join(txt_el(e, variant) for e in es) + "]" for k, es in _grouped(v)]
+                            else:
+                                call.append(f"--{st['key']}={raw_text(v, variant, mode)}")
                         cfg = p.parse_args(call)
                     elif ch == "argv_sp":
                         call = []
@@ -253,7 +280,7 @@ def random_shape(rnd):
         key = ".".join(rnd.choice(names) for _ in range(depth))
         if any(k == key or k.startswith(key + ".") or key.startswith(k + ".") for k in shape):
             continue
-        shape[key] = {"c": rnd.choice(["scalar", "scalar", "list", "dict"]), "st": rnd.choice(["int", "float", "bool", "str"]), "opt": rnd.random() < 0.3}
+        shape[key] = {"c": rnd.choice(["scalar", "scalar", "scalar", "list", "list", "dict", "dict", "dictlist"]), "st": rnd.choice(["int", "float", "bool", "str"]), "opt": rnd.random() < 0.3}
     if rnd.random() < 0.4:
         pre = rnd.choice(["", "f.", "f.g."])
         if not any(k == pre + "yn" or k.startswith(pre + "yn.") or (pre and (k + ".").startswith(pre)) and False for k in shape) and not any(k == pre.rstrip(".") for k in shape if pre):
@@ -286,7 +313,7 @@ def random_value(rnd, t):
     if r < 0.3:
         st = rnd.choice([x for x in ["int", "float", "bool"] if x != st])  # wrong non-string kind (strings only at str positions)
     if r > 0.9:
-        c = rnd.choice([x for x in ["scalar", "list", "dict"] if x != c])
+        c = rnd.choice([x for x in ["scalar", "list", "dict"] if x != c and not (x == "dict" and c == "dictlist")])
     if st == "str" and t["st"] != "str":
         st = "int"
     if c == "scalar":
@@ -296,6 +323,8 @@ def random_value(rnd, t):
         return {"c": "scalar", "e": [e]}
     if c == "list":
         return {"c": "list", "e": [el(st) for _ in range(rnd.randint(0, 3))]}
+    if c == "dictlist":
+        return {"c": "dictlist", "e": [el(st, f"k{j}") for j in range(rnd.randint(1, 2)) for _ in range(rnd.randint(1, 3))]}
     return {"c": "dict", "e": [el(st, f"k{j}") for j in range(rnd.randint(0, 3))]}
 
 
